@@ -1,5 +1,7 @@
 # configuration of ./check C05 (see checklib/props.py)
 PROP = {'level': 'proof',
+ # a failing case is run again alone (twice) before it is believed: real sockets and timers on a shared machine
+ 'retry': True,
  # every candidate of the shrinker is a real network exchange: bound the search (./check reads these two keys)
  'shrink_rounds': 12, 'shrink_candidates': 150,
  'rule': 'One evaluation = one real Client.Exchange call over loopback UDP against a scripted peer that sends a generated history of 0..12 '
